@@ -12,6 +12,7 @@
 //! whenever off != 0), the PUBLIC arrow_ffi function is called, and so is the equivalent arrow::compute kernel.
 //! Output: one line per evaluation on which implementation, Arrow and the spec do not all agree
 //!   {"i":case#, "t":type, "op":op, "got":R, "arrow":R, "exp":[..], "enc":.., "tydrift":..}   R = {"k":"ok","v":[..]} | {"k":"err"|"panic","msg":..}
+//!   ({"i","t","op","got","c":1} when the implementation failed and Arrow == spec: compact, nothing else to compare)
 //! a few {"sample":1,..} lines of agreeing evaluations, and a last {"summary":1,..} line with the counters.
 use crate::util::*;
 use arrow::array::*;
@@ -315,7 +316,13 @@ pub fn replay(a: &[String]) -> i32 {
                 }
                 *lens.entry(c["len"].as_u64().unwrap().to_string()).or_default() += 1;
                 if !all || e.tydrift.is_some() || (samples < 12 && i % 97 == 5) {
-                    let mut rec = json!({"i": i, "t": ty, "op": e.op, "got": e.got.json(), "arrow": e.arrow.json(), "exp": e.exp});
+                    // compact form when the implementation failed while Arrow and the spec agree: the operands are in the case
+                    let failed = !matches!(e.got, R::Ok(_)) && e.arrow == R::Ok(e.exp.clone());
+                    let mut rec = if failed {
+                        json!({"i": i, "t": ty, "op": e.op, "got": e.got.json(), "c": 1})
+                    } else {
+                        json!({"i": i, "t": ty, "op": e.op, "got": e.got.json(), "arrow": e.arrow.json(), "exp": e.exp})
+                    };
                     if let Some(n) = &e.enc {
                         rec["enc"] = json!(n);
                     }
